@@ -25,6 +25,24 @@ def OrdOk (ord : Ord) : Prop := ∀ l x, x ∈ ord l ↔ x ∈ l
     `OrdererStore::ready`; re-extracted from `sqlite.rs` on every run. -/
 theorem c11_code_counts_distinct : P2.Extracted.C11.readyCountsDistinct = true := by decide
 
+/-- **Source tie for the decision logic the model transcribes** (re-extracted from the SQL / Rust text of
+    `sqlite.rs` on every run; the theorems below are about a model that hard-codes exactly these choices):
+    `take_next_ready` takes `WHERE in_queue = TRUE ORDER BY queue_index ASC LIMIT 1` and sets
+    `in_queue = FALSE` (`minInq`, `takeNextReady`); `mark_ready` inserts at `MAX(queue_index) + 1` with
+    `INSERT OR IGNORE`, returns without change when `was_in_queue`, otherwise re-queues by updating
+    `queue_index, in_queue` (`markReady`); `remove_pending` deletes by `id` (`removePending`);
+    `get_next_pending` selects the sets by `id` and the parents by `(child_id, set_digest)` over all ids
+    (`getNextPending`). `ORDER BY … DESC`, `MAX + 0`, a dropped or inverted re-queue guard, deleting by
+    `child_id` … make this theorem fail before any input is generated. -/
+theorem c11_extracted_sql :
+    P2.Extracted.C11.takeOrder = "ASC" ∧ P2.Extracted.C11.takeFilter = "in_queue = TRUE" ∧
+    P2.Extracted.C11.takeUpdate = "in_queue = FALSE" ∧ P2.Extracted.C11.markReadyIndexStep = 1 ∧
+    P2.Extracted.C11.markReadyInsert = "INSERT OR IGNORE" ∧ P2.Extracted.C11.requeueGuard = "was_in_queue.0" ∧
+    P2.Extracted.C11.requeueUpdate = "queue_index = ?, in_queue = ?" ∧ P2.Extracted.C11.removePendingKey = "id" ∧
+    P2.Extracted.C11.nextPendingKey = "id" ∧
+    P2.Extracted.C11.nextPendingParents = "child_id = ? AND set_digest = ?" := by
+  refine ⟨?_, ?_, ?_, ?_, ?_, ?_, ?_, ?_, ?_, ?_⟩ <;> decide
+
 /-- **Safety.** If `x` is released at position `i`, each of its dependencies was released at some
     position `j < i`. -/
 theorem c11_safety (deps : Nat → List Nat) (ord : Ord) (hord : OrdOk ord) (ops : List Op) (hwf : WF deps ops)
